@@ -468,12 +468,10 @@ func Extract(a *Term, lo, w int) *Term {
 		}
 		return Concat(Extract(a.A, 0, lo+w-k), Extract(a.B, lo, k-lo))
 	case OpBAnd, OpBOr, OpBXor:
-		if lo == 0 || true {
+		// distribute only over a constant operand: distributing in general prevents the re-assembly
+		// concat(x[31:8], x[7:0]) = x of values that were written out as bytes and read back
+		if a.B.IsConst() || a.A.IsConst() {
 			return BinBV(a.Op, Extract(a.A, lo, w), Extract(a.B, lo, w))
-		}
-	case OpAdd, OpSub, OpMul:
-		if lo == 0 {
-			return BinBV(a.Op, Extract(a.A, 0, w), Extract(a.B, 0, w))
 		}
 	case OpIte:
 		if a.B.IsConst() || a.C.IsConst() {
@@ -606,6 +604,11 @@ func BinBV(op Op, a, b *Term) *Term {
 				}
 				return BV(w, uint64(sx%sy))
 			}
+		}
+	}
+	if (op == OpAdd || op == OpSub) && (a.Op == OpAdd || a.Op == OpSub || b.Op == OpAdd || b.Op == OpSub) {
+		if r := addNorm(op, a, b); r != nil {
+			return r
 		}
 	}
 	switch op {
@@ -1121,4 +1124,90 @@ func evalTerm(t *Term, vars map[*Term]uint64, memo map[*Term]uint64) (uint64, bo
 	}
 	memo[t] = r
 	return r, true
+}
+
+// addNorm flattens nested additions/subtractions into a canonical sum (operands ordered by id,
+// constants folded, opposite terms cancelled), so that sums of the same words in a different
+// order become the same term.  Returns nil when the sum is too large to flatten.
+func addNorm(op Op, a, b *Term) *Term {
+	w := a.W
+	coef := map[*Term]uint64{}
+	var order []*Term
+	var k uint64
+	n := 0
+	var gather func(t *Term, sign uint64) bool
+	gather = func(t *Term, sign uint64) bool {
+		n++
+		if n > 200 {
+			return false
+		}
+		switch t.Op {
+		case OpConst:
+			k += sign * t.V
+		case OpAdd:
+			return gather(t.A, sign) && gather(t.B, sign)
+		case OpSub:
+			return gather(t.A, sign) && gather(t.B, -sign)
+		default:
+			if _, ok := coef[t]; !ok {
+				order = append(order, t)
+			}
+			coef[t] += sign
+		}
+		return true
+	}
+	if !gather(a, 1) {
+		return nil
+	}
+	sb := uint64(1)
+	if op == OpSub {
+		sb = ^uint64(0)
+	}
+	if !gather(b, sb) {
+		return nil
+	}
+	m := mask(w)
+	// sort by id for a canonical order
+	for i := 1; i < len(order); i++ {
+		for j := i; j > 0 && order[j-1].id > order[j].id; j-- {
+			order[j-1], order[j] = order[j], order[j-1]
+		}
+	}
+	var pos, neg []*Term
+	for _, t := range order {
+		c := coef[t] & m
+		switch {
+		case c == 0:
+		case c == 1:
+			pos = append(pos, t)
+		case c == m:
+			neg = append(neg, t)
+		default:
+			pos = append(pos, BinBV(OpMul, t, BV(w, c)))
+		}
+	}
+	var r *Term
+	for _, t := range pos {
+		if r == nil {
+			r = t
+		} else {
+			r = mk(OpAdd, w, r, t, nil, 0, "")
+		}
+	}
+	k &= m
+	if r == nil {
+		r = BV(w, k)
+		k = 0
+	}
+	for _, t := range neg {
+		r = mk(OpSub, w, r, t, nil, 0, "")
+	}
+	if k != 0 {
+		if r.IsConst() {
+			r = BV(w, r.V+k)
+		} else {
+			r = mk(OpAdd, w, r, BV(w, k), nil, 0, "")
+		}
+	}
+	return r
 }
